@@ -41,7 +41,7 @@ RULE = ('Tables of 1-6 columns x 1-6 rows of string cells (no \\n / \\r; alphabe
         'first / last / everywhere in a share of rows) rendered as CSV by csv.writer (QUOTE_MINIMAL or QUOTE_ALL), as '
         'tab-separated text by "\\t".join (cells without tabs) and, for VW, from a generated namespace map (1-6 ids of 1-2 '
         'characters without "_", "|", comma, white space) with per row a generated subset of namespaces in generated order, 0-3 '
-        'tokens (>= 2 characters, no white space, no "|") each, label token optionally followed by weight / tag tokens; each line '
+        'tokens (>= 2 characters, no ASCII white space, no "|"; non-separator blanks such as NBSP may occur strictly inside a token) each, label token optionally followed by weight / tag tokens; each line '
         'is offered with and without its "\\n" terminator. Arity clauses: 2-8 rows of which a generated subset has cells added or '
         'removed, written to a file and streamed through estimate_importances_minibatches (minibatch size 1-3, owned pool, spy on '
         'compute_batch_ranking). Namespace maps: 0-8 lines of 2- and 3-field entries (types f32 / others), blank lines. '
@@ -205,9 +205,25 @@ VW_ANY = st.characters(exclude_categories=['Cs', 'Zs', 'Zl', 'Zp', 'Cc'], exclud
 ID_CHARS = [c for c in 'ABCDEFGHabcdefgh0123456789-.:^#\xe9\xdf\u65e5' if c not in '_|, ']
 
 
+INNER_BLANKS = '\xa0\u2009\u3000\u2003'   # blanks that are NOT VW separators (only the ASCII space is): legal inside a token
+
+
+def _vw_token_ok(t):
+    return bool(t) and _vw_char_ok(t[0]) and _vw_char_ok(t[-1]) and all(_vw_char_ok(c) or c in INNER_BLANKS for c in t)
+
+
+def _with_inner_blank(t):
+    base, pos, blank = t
+    pos = 1 + pos % (len(base) - 1)
+    return base[:pos] + blank + base[pos:]
+
+
 @functools.lru_cache(maxsize=None)
 def vw_token(min_size=2):
+    inner = st.tuples(st.text(alphabet=st.sampled_from(VW_SPECIAL), min_size=2, max_size=5), st.integers(0, 10),
+                      st.sampled_from(list(INNER_BLANKS))).map(_with_inner_blank)
     return st.one_of(
+        inner,
         st.text(alphabet=st.sampled_from(VW_SPECIAL), min_size=min_size, max_size=6),
         st.text(alphabet=VW_ANY, min_size=min_size, max_size=5).filter(lambda s: all(_vw_char_ok(c) for c in s)),
         st.sampled_from(['aa123', 'ab', 'xx-1', 'ck:0.5', 'ab--', '--', '-a-']),
@@ -234,13 +250,13 @@ def vw_case(draw):
 
 def render_vw(nsmap, row):
     for s in [row['label']] + row['extra']:
-        if not s or not all(_vw_char_ok(c) for c in s):
+        if not s or not _vw_token_ok(s):
             raise HarnessError(f'bad VW head token {s!r}')
     sp = '  ' if row['wide'] else ' '
     out = row['label'] + ''.join(' ' + e for e in row['extra'])
     for i, toks in row['ns']:
         for t in toks:
-            if len(t) < 2 or not all(_vw_char_ok(c) for c in t):
+            if len(t) < 2 or not _vw_token_ok(t):
                 raise HarnessError(f'bad VW token {t!r}')
         out += ('' if row['tight'] else ' ') + '|' + nsmap[i][0] + ''.join(sp + t for t in toks)
     return out
